@@ -38,7 +38,7 @@ FLOORS = {"quick": {"sink_acks_checked": 30000, "sink_sequences": 5000, "sender_
                        "faults_applied": 80000, "data_drops_applied": 30000, "ack_drops_applied": 30000, "delays_applied": 40000,
                        "timeouts_seen": 30000, "fast_retransmits_seen": 2000, "lossfree_runs": 60,
                        "exhaustive_spaces": 40, "cc_TCPCubic": 10000, "cc_TCPReno": 10000}}
-KEYS = tuple(FLOORS["quick"].keys()) + ("random_pattern_runs", "dup_transmissions", "drained_after_completion")
+KEYS = tuple(FLOORS["quick"].keys()) + ("sink_long_hole_sequences", "random_pattern_runs", "dup_transmissions", "drained_after_completion")
 MSS = 512
 
 
@@ -102,6 +102,15 @@ def sink_part(ctx, stats, bad):
                 sink_case([(s * MSS, MSS) for s in seq], stats, bad)
         stats["exhaustive_spaces"] += 1
     rng = ctx.rng("sink")
+    # long runs behind a hole (a receiver that stops buffering far ahead of the hole would ACK short later)
+    for n in (rng.choice([100, 130, 200, 300, 520]), rng.choice([127, 128, 129, 256, 400])):
+        hole = rng.choice([0, 0, 1, 5])
+        seq = [(k * MSS, MSS) for k in range(n) if k != hole]
+        if rng.random() < 0.5:
+            rng.shuffle(seq)
+        seq.append((hole * MSS, MSS))
+        sink_case(seq, stats, bad)
+        stats["sink_long_hole_sequences"] += 1
     for _ in range(400):
         n = rng.randint(10, 40)
         seq = []
